@@ -218,10 +218,10 @@ func buildOracle(b builds, cfg tierCfg, pre map[int]string) oracleInfo {
 		var wg sync.WaitGroup
 		wg.Add(5)
 		go func() { defer wg.Done(); soak = oracleRun(b.ref, cfg.procWall, corpusPath, "soak", ids) }()
-		go func() { defer wg.Done(); canon = oracleRun(b.ref, cfg.procWall, corpusPath, "canonical", ids) }()
-		go func() { defer wg.Done(); rev = oracleRun(b.ref, cfg.procWall, corpusPath, "reverse", ids) }()
-		go func() { defer wg.Done(); shuf = oracleRun(b.ref, cfg.procWall, corpusPath, "shuffle", ids) }()
-		go func() { defer wg.Done(); inst = oracleRun(b.plain, cfg.procWall, corpusPath, "canonical", ids) }()
+		go func() { defer wg.Done(); canon = oracleRun(b.ref, 4*cfg.procWall, corpusPath, "canonical", ids) }()
+		go func() { defer wg.Done(); rev = oracleRun(b.ref, 4*cfg.procWall, corpusPath, "reverse", ids) }()
+		go func() { defer wg.Done(); shuf = oracleRun(b.ref, 4*cfg.procWall, corpusPath, "shuffle", ids) }()
+		go func() { defer wg.Done(); inst = oracleRun(b.plain, 4*cfg.procWall, corpusPath, "canonical", ids) }()
 		wg.Wait()
 		again := false
 		for _, o := range []proto.OracleOut{canon, rev, shuf, inst, soak} {
@@ -242,6 +242,8 @@ func buildOracle(b builds, cfg tierCfg, pre map[int]string) oracleInfo {
 		if !again || attempt >= 3 {
 			break
 		}
+		// (the full passes get four times the wall of a simulator process: a tree whose calls
+		// are slow is decided slowly rather than not at all; the soak pass has its own budget)
 		// some call dies even alone: find all of them at once, drop them, run the passes again
 		isoOf(all)
 	}
